@@ -150,19 +150,20 @@ var (
 
 // caseSpec is one literal case (replayable by hand together with the seed).
 type caseSpec struct {
-	Scenario string       `json:"scenario"` // read | persist | writer
-	VT       string       `json:"value_type"`
-	Profile  sopx.Profile `json:"placement"`
-	API      string       `json:"read_api,omitempty"`
-	Pos      string       `json:"positioning,omitempty"`
-	End      string       `json:"ending,omitempty"`
-	Slot     int          `json:"slot_length"`
-	Items    int          `json:"items"`
-	Warm     bool         `json:"warm_read_before"`
-	Reread   bool         `json:"reread_in_same_txn"`
-	WriterOp string       `json:"writer_op,omitempty"` // add | update
-	Salt     string       `json:"salt"`
-	Seed     int64        `json:"seed"`
+	Scenario     string       `json:"scenario"` // read | persist | writer
+	VT           string       `json:"value_type"`
+	Profile      sopx.Profile `json:"placement"`
+	API          string       `json:"read_api,omitempty"`
+	Pos          string       `json:"positioning,omitempty"`
+	End          string       `json:"ending,omitempty"`
+	Slot         int          `json:"slot_length"`
+	Items        int          `json:"items"`
+	Warm         bool         `json:"warm_read_before"`
+	ColdPopulate bool         `json:"populated_by_child_process"`
+	Reread       bool         `json:"reread_in_same_txn"`
+	WriterOp     string       `json:"writer_op,omitempty"` // add | update
+	Salt         string       `json:"salt"`
+	Seed         int64        `json:"seed"`
 }
 
 func key(i int) string { return fmt.Sprintf("k%04d", i) }
@@ -186,34 +187,54 @@ func modeOf(end string) sop.TransactionMode {
 	return sop.ForWriting
 }
 
+// genValues draws the case's values (the first use of the case PRNG, in parent and child alike).
+func genValues[V any](vt vtype[V], c caseSpec, rnd *rand.Rand) []V {
+	vals := make([]V, c.Items)
+	for i := range vals {
+		vals[i] = vt.gen(rnd, i)
+	}
+	return vals
+}
+
 // populate creates the store and commits c.Items generated values; returns the expected canonical
 // JSON per key (captured BEFORE Add) and the caller-side originals (for the writer-side class).
+// With c.ColdPopulate the store is written by a child process, so this process's caches are filled
+// by the read path only (the caller-side originals then never touch this process's cache).
 func populate[V any](d sopx.DB, vt vtype[V], c caseSpec, rnd *rand.Rand) (map[string]string, map[string]V, error) {
+	vals := genValues(vt, c, rnd)
+	want := map[string]string{}
+	orig := map[string]V{}
+	for i, v := range vals {
+		want[key(i)] = show(v)
+		orig[key(i)] = v
+	}
+	if c.ColdPopulate {
+		return want, orig, coldPopulate(d.Dir, c)
+	}
+	return want, orig, populateWith(d, c, vals)
+}
+
+func populateWith[V any](d sopx.DB, c caseSpec, vals []V) error {
 	t, err := d.Begin(sop.ForWriting)
 	if err != nil {
-		return nil, nil, fmt.Errorf("begin: %w", err)
+		return fmt.Errorf("begin: %w", err)
 	}
 	b, err := sopx.New[string, V](d, t, sopx.Options(storeName, c.Slot, true, c.Profile))
 	if err != nil {
 		t.Rollback(sopx.Ctx)
-		return nil, nil, fmt.Errorf("newbtree: %w", err)
+		return fmt.Errorf("newbtree: %w", err)
 	}
-	want := map[string]string{}
-	orig := map[string]V{}
-	for i := 0; i < c.Items; i++ {
-		v := vt.gen(rnd, i)
-		want[key(i)] = show(v)
-		orig[key(i)] = v
+	for i, v := range vals {
 		ok, err := b.Add(sopx.Ctx, key(i), v)
 		if err != nil || !ok {
 			t.Rollback(sopx.Ctx)
-			return nil, nil, fmt.Errorf("add %s: ok=%v err=%v", key(i), ok, err)
+			return fmt.Errorf("add %s: ok=%v err=%v", key(i), ok, err)
 		}
 	}
 	if err := t.Commit(sopx.Ctx); err != nil {
-		return nil, nil, fmt.Errorf("commit: %w", err)
+		return fmt.Errorf("commit: %w", err)
 	}
-	return want, orig, nil
+	return nil
 }
 
 // readAll reads every key in a fresh reader transaction and returns canonical JSON per key.
@@ -580,7 +601,57 @@ func clone(m map[string]any) map[string]any {
 
 // ---- cold child: reads one key in a fresh process and prints the canonical JSON of its value ----
 
-func init() { proc.Register("c38-read", childRead) }
+func init() {
+	proc.Register("c38-read", childRead)
+	proc.Register("c38-populate", childPopulate)
+}
+
+func childPopulateT[V any](dir string, vt vtype[V], c caseSpec) int {
+	rnd := env.Rand(c.Seed, c.Salt)
+	if err := populateWith(sopx.NewDB(dir), c, genValues(vt, c, rnd)); err != nil {
+		fmt.Println("ERR", err)
+		return proc.ExitHarness
+	}
+	fmt.Println("POPULATED")
+	return proc.ExitOK
+}
+
+func childPopulate(args []string) int {
+	if len(args) != 2 {
+		return proc.ExitHarness
+	}
+	var c caseSpec
+	ba, err := os.ReadFile(args[1])
+	if err != nil || json.Unmarshal(ba, &c) != nil {
+		return proc.ExitHarness
+	}
+	switch c.VT {
+	case "bytes":
+		return childPopulateT(args[0], vtBytes, c)
+	case "map":
+		return childPopulateT(args[0], vtMap, c)
+	case "ints":
+		return childPopulateT(args[0], vtInts, c)
+	case "pstruct":
+		return childPopulateT(args[0], vtPStruct, c)
+	}
+	return proc.ExitHarness
+}
+
+func coldPopulate(dir string, c caseSpec) error {
+	logDir := env.Scratch("c38-log")
+	defer env.Remove(logDir)
+	ba, _ := json.Marshal(c)
+	cf := logDir + "/case.json" // the case is on disk before the child starts
+	if err := os.WriteFile(cf, ba, 0o644); err != nil {
+		return err
+	}
+	res := proc.Run(logDir, 60, nil, "c38-populate", dir, cf)
+	if res.Code != proc.ExitOK || !strings.Contains(string(res.Out()), "POPULATED") {
+		return fmt.Errorf("populate child exit=%d out=%q err=%q", res.Code, string(res.Out()), string(res.Err()))
+	}
+	return nil
+}
 
 func childReadT[V any](dir, k string) int {
 	d := sopx.NewDB(dir)
@@ -650,7 +721,7 @@ const rule = "grid case = (value type in {bytes,map,ints,pstruct}) x (placement 
 	"{GetCurrentValue, GetCurrentItem, GetCurrentItem-assign}) x (positioning Find|First) x (ending rollback|commit-writer|commit-reader); " +
 	"plus scenario 'persist' (mutate, rollback, unrelated write to another key, cold-process read) per value type x placement x API, " +
 	"plus the writer-side class (evidence only). Slot length, item count (1..3.5 x slot: single- and multi-node trees), target key, " +
-	"warm-read and same-txn re-read are PRNG-chosen from VERIF_SEED. Fingerprint = scenario:valuetype:placement:api:positioning:ending. " +
+	"warm-read, population by a child process (1 in 6 read cases) and same-txn re-read are PRNG-chosen from VERIF_SEED. Fingerprint = scenario:valuetype:placement:api:positioning:ending. " +
 	"A case is non-trivial when the read returned exactly the committed value, the in-place modification changed the caller's view, " +
 	"no write-back happened, the transaction ended without error and the later transaction read every key."
 
@@ -703,6 +774,7 @@ func Run(r *report.Run) int {
 		}
 		c.Warm = rnd.Intn(2) == 0
 		c.Reread = rnd.Intn(2) == 0
+		c.ColdPopulate = c.Scenario == "read" && rnd.Intn(6) == 0
 		c.Seed = r.Seed
 		c.Salt = fmt.Sprintf("c38-case-%d", n)
 		n++
@@ -778,6 +850,14 @@ func Run(r *report.Run) int {
 				note(cell, "later-txn:leak:"+c.End)
 			} else {
 				note(cell, "later-txn:private:"+c.End)
+			}
+			if c.ColdPopulate {
+				// this process never held the writer's originals: the read path alone is responsible
+				if seen["later-txn-sees-mutation"] {
+					r.Count("cold_populated_cases_leaking", 1)
+				} else {
+					r.Count("cold_populated_cases_private", 1)
+				}
 			}
 			if c.Reread {
 				if seen["same-txn-sees-mutation"] {
